@@ -401,6 +401,13 @@ func decompositions(c *mon.Ctx, cfg hcfg, rng *gen.Rng) {
 			} else {
 				t.Push(m.leaves[p.lo])
 			}
+			// the root of what has been pushed so far, asked for between the pieces (a cached root must follow every
+			// kind of push)
+			if (n+i)%2 == 0 {
+				c.Check("Root", L+"/"+kind+"/intermediate-root-mismatch", bytes.Equal(t.Root(), m.mth(0, p.hi)), func() string {
+					return fmt.Sprintf("n=%d i=%d after piece %v of decomposition %v", n, i, p, d)
+				})
+			}
 		}
 		root, ps, idx, nl := t.Prove()
 		want := append([][]byte{m.leaves[i]}, m.path(i, 0, n)...)
@@ -426,6 +433,11 @@ func decompositions(c *mon.Ctx, cfg hcfg, rng *gen.Rng) {
 				}
 			} else {
 				t.Push(m.leaves[p.lo])
+			}
+			if n%2 == 1 {
+				c.Check("Root", L+"/"+kind+"/intermediate-root-mismatch/root-only-tree", bytes.Equal(t.Root(), m.mth(0, p.hi)), func() string {
+					return fmt.Sprintf("n=%d after piece %v of decomposition %v", n, p, d)
+				})
 			}
 		}
 		root := t.Root()
